@@ -360,7 +360,11 @@ func sCheckRun(prop string, filter func(name string) bool) func(env *Env) *Resul
 				res.Incomplete = append(res.Incomplete, "s/"+sc.Name)
 				continue
 			}
-			sExplore(env, sc, bound, res, prop)
+			b := bound
+			if sc.Clients >= 3 && len(sc.Name) > 0 && strings.Count(sc.Name, "||") >= 2 {
+				b = bound - 1 // three threads: one preemption less (the schedule count grows with threads^preemptions)
+			}
+			sExplore(env, sc, b, res, prop)
 		}
 		return res
 	}
@@ -381,7 +385,25 @@ func racePostRun(res *Result, tier string) {
 	cmd.Env = append(os.Environ(), "GORACE=halt_on_error=0 exitcode=0", "GOMAXPROCS=16")
 	out, err := cmd.CombinedOutput()
 	text := string(out)
-	if err != nil && !strings.Contains(text, "racepass iterations=") {
+	if i := strings.Index(text, "fatal error: concurrent map"); i >= 0 {
+		// the runtime's own detector: unsynchronised map access kills the process
+		site := "runtime-detected"
+		for _, l := range strings.Split(text[i:], "\n") {
+			if strings.Contains(l, "github.com/yorkie-team/yorkie/") && !strings.HasPrefix(strings.TrimSpace(l), "/") {
+				l = strings.TrimSpace(l)
+				if j := strings.LastIndex(l, "/"); j >= 0 {
+					l = l[j+1:]
+				}
+				if j := strings.Index(l, "("); j > 0 {
+					l = l[:j]
+				}
+				site = l
+				break
+			}
+		}
+		raw, _ := json.Marshal(map[string]string{"race": site})
+		res.AddFound(Found{Property: "C16", Kind: "data-race", Sig: "data-race:" + site, Detail: truncateStr(text[i:], 3500), Case: raw, Core: "data-race|concurrent-map|" + site})
+	} else if err != nil && !strings.Contains(text, "racepass iterations=") && !strings.Contains(text, "WARNING: DATA RACE") {
 		res.HarnessErr = append(res.HarnessErr, fmt.Sprintf("race pass: %v\n%s", err, truncateStr(text, 2000)))
 		return
 	}
@@ -431,7 +453,7 @@ func raceSite(rep string) string {
 					if j := strings.LastIndex(f, "/"); j >= 0 {
 						f = f[j+1:]
 					}
-					if j := strings.Index(f, "("); j > 0 {
+					if j := strings.LastIndex(f, "("); j > 0 {
 						f = f[:j]
 					}
 					sites = append(sites, f)
@@ -475,7 +497,7 @@ func init() {
 		Level: "exploration",
 		Rule: "Engine S: each scenario is a closed harness of 2-3 real handler calls (PushPull, duplicate PushPull in flight, Attach with snapshot pull, Detach, Remove, Deactivate (cluster DetachDocument), forced Compact, background snapshot store) on one document, " +
 			"each on its own goroutine under a cooperative scheduler that owns every named-lock operation (trace hook; Go RWMutex semantics incl. writer preference modelled), every storage call (Backend.DB decorator) and every background task (spawn hook); " +
-			"ALL schedules with at most 2 preemptions (thorough 3) are executed (depth-first over choice sequences, deterministic replay of the prefix, divergence is a harness error); " +
+			"ALL schedules with at most 2 preemptions (thorough 3; one less for the three-thread harnesses) are executed (depth-first over choice sequences, deterministic replay of the prefix, divergence is a harness error); " +
 			"oracle on every schedule: no deadlock (no enabled thread while one is unfinished), every call returns, no panic, lock acquisition order doc -> pull -> attachment -> push, C04's log oracle, and C01's convergence after the window; " +
 			"evaluations = schedules, non-trivial = schedules with at least one preemption, distinct outcomes = (scenario, result kind)",
 		Assume: []string{"memdb backend: one storage call is atomic", "preemption points are named-lock operations, storage calls and task start/end; code between two points runs atomically (data-race freedom of that code is the job of the separate free-running -race pass, not of this exploration)",
